@@ -44,6 +44,35 @@ pub fn unambiguous(name: &[u8]) -> bool {
     classify_component(name) == classify(name)
 }
 
+/// the name as a path compares: empty and non-leading "." components dropped, a leading '/' kept
+/// (two recorded names with the same key are one entry to the library, which keys by path)
+pub fn path_key(name: &[u8]) -> Vec<Vec<u8>> {
+    let mut key = vec![];
+    if name.first() == Some(&b'/') {
+        key.push(b"/".to_vec());
+    }
+    for (i, c) in name.split(|b| *b == b'/').enumerate() {
+        if c.is_empty() || (c == b"." && i > 0) {
+            continue;
+        }
+        key.push(c.to_vec());
+    }
+    key
+}
+
+/// names the checks take: no white space, no ".." component, a last component other than ".",
+/// and the classification rule unambiguous; doubled, trailing and leading '/' and interior "."
+/// components are all part of "any non-whitespace bytes"
+pub fn name_in_domain(name: &[u8]) -> bool {
+    let base = basename(name);
+    !name.is_empty()
+        && !name.iter().any(|b| is_ws(*b))
+        && !name.split(|b| *b == b'/').any(|c| c == b"..")
+        && !base.is_empty()
+        && base != b"."
+        && unambiguous(name)
+}
+
 #[derive(Clone, Debug, PartialEq, Eq)]
 pub enum Line {
     RcsId(Vec<u8>),
